@@ -799,6 +799,7 @@ var swaps = map[string][2]string{
 	"sync":      {"simrt/simsync", "sync"},
 	"time":      {"simrt/simtime", "time"},
 	"math/rand": {"simrt/simrand", "rand"},
+	"sync/atomic": {"simrt/simatomic", "atomic"},
 }
 
 func (in *inst) swapImports() {
